@@ -497,8 +497,11 @@ def gen_data(rng, k=None, f=None, sizes=None, singleton=False):
     if singleton:
         sizes[int(rng.integers(len(sizes)))] = 1
     f = f or int(rng.choice([1, 2, 3, 25], p=[0.2, 0.4, 0.3, 0.1]))
-    style = int(rng.integers(4))
-    if style == 0:
+    style = int(rng.integers(5))
+    if style == 4:
+        # large stamps that differ by far less than 1e-5 relative (dates, step counters): distinct time points all the same
+        stamps = 738000.0 + np.cumsum(rng.choice([0.25, 0.5, 1.0, 2.0], size=k))
+    elif style == 0:
         stamps = rng.permutation(20)[:k].astype(float)                    # integers
     elif style == 1:
         stamps = np.round(rng.normal(size=k) * 5, 2)                      # non-integer, negative
